@@ -267,6 +267,20 @@ class RemoteNode:
         r = wire.recv(self.sock)
         if not r.get("ok"):
             raise RuntimeError("node init failed: %s" % r.get("harness_error"))
+        self.pid = r.get("pid")
+
+    def kill(self) -> None:
+        """SIGKILL the node process (only for runs outside the simulator's control, e.g. the real pool)."""
+        self.closed = True
+        try:
+            if self.pid:
+                os.kill(int(self.pid), 9)
+        except OSError:
+            pass
+        try:
+            self.sock.close()
+        except Exception:
+            pass
 
     def call(self, op: str, **args: Any) -> Any:
         wire.send(self.sock, {"op": op, "args": args})
@@ -311,6 +325,6 @@ def serve(conn: socket.socket, zsock: str) -> None:
     except BaseException:
         wire.send(conn, {"ok": False, "harness_error": traceback.format_exc()})
         return
-    wire.send(conn, {"ok": True})
+    wire.send(conn, {"ok": True, "pid": os.getpid()})
     sys.unraisablehook = lambda *a: None  # dead-disk finalisers are expected noise
     node.run()
